@@ -18,7 +18,7 @@ COMPONENTS = {"real": ["workflows.* engine (wait_for_event, waiter reducer arms,
               "stub": ["llama_index_instrumentation"], "sim": ["loop, clock, responder"]}
 ASSUMPTIONS = ["a retry of a step that failed after its wait completed may complete the same wait again (documented: 'allow retries to grab the waiter events')",
                "timeouts within 1e-9 of the deadline are ties and exempt"]
-EXPECTED_PROBES = ["step-with-two-waits", "fallback-wait-after-timeout", "earlier-wait-replayed", "double-resume", "wait-completed", "wait-timeout", "duplicate-response", "resumed-with-pending-waiter", "two-matching-before-replay"]
+EXPECTED_PROBES = ["step-with-two-waits", "fallback-wait-after-timeout", "earlier-wait-replayed", "wait-completed", "wait-timeout", "resumed-with-pending-waiter", "second-matching-event-for-settled-waiter"]
 LEVEL_TEXT = ("Seeded exploration of response timings around waiter registration, replay and resume; every value returned by "
               "wait_for_event and every TimeoutError is attributed to one wait (step, input uid, waiter id) and counted.")
 LEVEL_NOTE = "Trusted: simulator loop, body logging around wait_for_event."
@@ -100,6 +100,8 @@ def _roots(recs):
                                 roots[(st, wid)] = "rehydration-race"
                             else:
                                 roots.setdefault((st, wid), "requeued-by-second-event")
+                        if "event" in w["hits"] or "timeout" in w["hits"]:
+                            doubled.add(("__probe__", "second-matching-event-for-settled-waiter"))
                         w["hits"].append("event")
                         if w["deser"] and not w["rehydrated"]:
                             w["hit_unrehydrated"] = True
@@ -120,6 +122,8 @@ def check(world, spec, outcome) -> None:
     recs = world.live_recs()
     resumed = bool(outcome and outcome.get("resumed"))
     roots, doubled = _roots(recs)
+    if ("__probe__", "second-matching-event-for-settled-waiter") in doubled:
+        world.probe("second-matching-event-for-settled-waiter")
     actual_id: dict = {}
     for seq, t, kind, f in recs:
         if kind == "wait-call":
